@@ -246,7 +246,7 @@ PROPS["C18"] = {
 
 PROPS["C03"] = {
     "level": "proof",
-    "verus": [{"unit": "decoder", "rlimit": 300}, {"unit": "decoder_inplace", "rlimit": 300}, {"unit": "dom_visitor", "rlimit": 200}],
+    "verus": [{"unit": "decoder", "rlimit": 300}, {"unit": "decoder_inplace", "rlimit": 300}, {"unit": "dom_visitor", "rlimit": 200}, {"unit": "typed_de", "rlimit": 300}],
     "kani": K_META,
     "trusted_base": [T1, T2, T6, T8, VSTD, KANI, T4, PERR,
                      "DocumentVisitor: its callbacks (impl JsonVisitor: which node kind / payload / sibling index each event pushes) are proved in unit dom_visitor at dispatch level, with the node stack opaque; the stack machinery itself (push_node, visit_container_start / visit_container_end: flattening, arena copy with copy_nonoverlapping into bumpalo, back-pointer header, visit_root) and the public read API walk are NOT under contract (CBMC needs > 50 GB on a 10-event script)",
